@@ -42,3 +42,23 @@ Proof.
   - constructor; [exact Hs|].
     apply Forall_forall; intros x Hx. apply Hl. eapply In_skipn; eauto.
 Qed.
+
+Lemma NoDup_app_single {A} (l : list A) x : NoDup l -> ~ In x l -> NoDup (l ++ [x]).
+Proof.
+  intros Hl Hx. induction l as [|a l IH]; cbn.
+  - constructor; [intros []|constructor].
+  - inversion Hl as [|? ? Ha Hl']; subst. constructor.
+    + intros H. apply in_app_or in H. destruct H as [H|[H|[]]]; [auto|]. subst. apply Hx. left. reflexivity.
+    + apply IH; [exact Hl'|]. intros H. apply Hx. right. exact H.
+Qed.
+
+Lemma NoDup_map_filter {A B} (f : A -> B) (p : A -> bool) (l : list A) :
+  NoDup (map f l) -> NoDup (map f (filter p l)).
+Proof.
+  induction l as [|a l IH]; cbn; intros H; [constructor|].
+  inversion H as [|? ? Ha Hl]; subst. destruct (p a); cbn.
+  - constructor; [|apply IH; exact Hl].
+    intros Hin. apply Ha. apply in_map_iff in Hin. destruct Hin as (x & Hx1 & Hx2).
+    apply filter_In in Hx2. apply in_map_iff. exists x. tauto.
+  - apply IH. exact Hl.
+Qed.
